@@ -54,6 +54,7 @@ CHECKS["C02"] = {
             "C02 judges: anything a client receives because of a peer datagram that the model does not authorise (unpermitted sender, wrong client, wrong encapsulation/attribution).",
     "parts": [A("vtx", "./checks/c02", "TestC02", budget={"quick": 150, "thorough": 1500}),
               A("bfs", "./checks/c02", "TestC02BFS", tiers=["thorough"], budget={"thorough": 1500}),
+              A("lookalikes", "./checks/c02", "TestC02Lookalikes", budget={"quick": 60, "thorough": 600}),
               A("sched", "./checks/bsem", "TestC02Sched", overlay=True, gomaxprocs=1, budget={"quick": 90, "thorough": 1500})],
 }
 CHECKS["C04"] = {
